@@ -1,4 +1,4 @@
-import Pyrtma.Proofs.ManagerSim
+import Pyrtma.Proofs.ManagerSimInfo
 import Pyrtma.Proofs.ManagerOrder
 /-!
 # Refinement of the history-based Spec by the manager model M1 — part 3: one frame read
@@ -48,6 +48,21 @@ theorem ackSends_frames (evs : List Ev) (P : Frame → Prop) (h : ∀ p ∈ data
   have : (p.1, p.2.2) ∈ dataSends isAck evs := by
     rw [← ackSends_map]; exact List.mem_map.mpr ⟨p, hp, rfl⟩
   exact h (p.1, p.2.2) this
+
+theorem sends_filter_map (B : Body → Bool) (evs : List Ev) :
+    ((Spec.sends evs).filter (fun p => B p.2.2.body)).map (fun p => (p.1, p.2.2)) = dataSends B evs := by
+  unfold Spec.sends dataSends
+  induction evs with
+  | nil => rfl
+  | cons e rest ih =>
+    cases e with
+    | send u c f =>
+      simp only [List.filterMap_cons]
+      by_cases hb : B f.body = true
+      · simp only [List.filter_cons, hb, if_true, List.map_cons, ih]
+      · have hb' : B f.body = false := by simpa using hb
+        simp only [List.filter_cons, hb', Bool.false_eq_true, if_false, ih]
+    | _ => simpa [List.filterMap_cons] using ih
 
 /-- the `B`-frames of an extension of the log -/
 theorem dataSends_ext {B : Body → Bool} {s s' : State} {ext : List Ev} (he : s'.out = s.out ++ ext) :
@@ -619,6 +634,7 @@ structure QuietTo (cfg : Cfg) (s1 s2 : State) : Prop where
   j : J s2
   noAck : Quiet isAck s1 s2
   noData : ∀ k, Quiet (cp k) s1 s2
+  info : InfoTo s1 (fun _ => False) s1 s2
 
 theorem noErr_applyDepartures {p : String} {a : Spec.A} (evs : List Ev) (h : Spec.NoErr p a) :
     Spec.NoErr p (Spec.applyDepartures a evs) := by
@@ -748,14 +764,14 @@ end pm
 /-! ## one frame: the cases -/
 
 /-- the properties whose Spec clauses are proved to hold on every run of the model -/
-def proven : List String := ["C19", "C01"]
+def proven : List String := ["C19", "C01", "C06"]
 
 /-- the tags of all the other clauses -/
-def others : List String := ["C03", "C05", "C06", "C07", "C14", "C18"]
+def others : List String := ["C03", "C05", "C07", "C14", "C18"]
 
 theorem proven_not {p : String} (hp : p ∈ proven) : p ∉ others := by
   simp only [proven, List.mem_cons, List.not_mem_nil, or_false] at hp
-  rcases hp with rfl | rfl <;> decide
+  rcases hp with rfl | rfl | rfl <;> decide
 
 theorem ext_others {T : List String} {a b : Spec.A} (h : Spec.ErrExt T a b)
     (hs : ∀ p, p ∈ T → p ∈ others := by simp [others]) : Spec.CoreExt others a b := (h.mono hs).core
@@ -857,53 +873,6 @@ theorem seg_setName_bad (hn : (rd.h.mtype == cfg.mtSetName) = true) (hnm : cstr 
     rw [Spec.checkAcks_false_ok cfg _ rd.uid evs hnil]
     exact ext_others (Spec.checkDepartures_ext cfg _ _ evs)
   exact segGoal_of hseg rfl (seg_close (rdState_sim inv.sim rd) (rdState_top ok hfuel inv.top rd) n q evs he hW)
-
-theorem seg_setName (hu0 : rd.uid ≠ 0) (hn : (rd.h.mtype == cfg.mtSetName) = true) (nm : List Nat)
-    (hnm : cstr (rdState cfg s rd).buf 0 32 = some nm) : SegGoal cfg a rd evs s2 := by
-  rw [readOne_whole cfg s rd inv.top.good.ok m hm hb, pm_setName cfg _ _ _ hc hd hs hn nm hnm] at q
-  have hseg := Spec.segment_setName cfg a rd evs am hget hal hb hc hd hs hn nm
-    (by rw [bufs_eq inv.sim rd]; exact hnm)
-  generalize hmm : lookupMod ((rdState cfg s rd).upd rd.uid fun m => { m with name := nm }) rd.uid = mm at q
-  have hs0 : Sim cfg ((Spec.afterBuf cfg a rd).upd rd.uid (fun m => { m with name := nm }))
-      ((rdState cfg s rd).upd rd.uid (fun m => { m with name := nm })) :=
-    sim_upd (rdState_sim inv.sim rd) rd.uid _ _ (fun _ => rfl) (fun _ => rfl) (fun _ => rfl)
-      (fun am m _ _ h => ⟨h.connected, h.modId, h.unique, h.isLogger, h.isDaemon, rfl, h.pid, h.subs, h.noAll⟩)
-      (fun _ => rfl) (fun _ => rfl) (fun _ => rfl) hu0 (fun _ => rfl)
-  have t0 : Top cfg ((rdState cfg s rd).upd rd.uid (fun m => { m with name := nm })) :=
-    top_upd ok hfuel (rdState_top ok hfuel inv.top rd) rd.uid _ (fun _ => rfl) (fun _ => rfl) (fun _ => rfl)
-  have n := (logTop_nest cfg 20 ((rdState cfg s rd).upd rd.uid (fun m => { m with name := nm }))).trans
-    (infoOf_nest cfg _ mm)
-  have qa := (qa_log cfg 20 ((rdState cfg s rd).upd rd.uid (fun m => { m with name := nm }))).trans (qa_info cfg _ mm)
-  have hnil := acks_nil_of_quiet qa q evs he
-  have hW : Spec.CoreExt others ((Spec.afterBuf cfg a rd).upd rd.uid (fun m => { m with name := nm }))
-      (Spec.checkInfos (Spec.checkDepartures cfg (Spec.checkAcks cfg
-        ((Spec.afterBuf cfg a rd).upd rd.uid (fun m => { m with name := nm })) rd.uid false evs) none evs) evs) := by
-    rw [Spec.checkAcks_false_ok cfg _ rd.uid evs hnil]
-    exact (ext_others (Spec.checkDepartures_ext cfg _ _ evs)).trans (ext_others (Spec.checkInfos_ext _ evs))
-  exact segGoal_of hseg rfl (seg_close hs0 t0 n q evs he hW)
-
-theorem seg_ready (hu0 : rd.uid ≠ 0) (hn : (rd.h.mtype == cfg.mtSetName) = false)
-    (hr : (rd.h.mtype == cfg.mtModuleReady) = true) : SegGoal cfg a rd evs s2 := by
-  rw [readOne_whole cfg s rd inv.top.good.ok m hm hb, pm_ready cfg _ _ _ hc hd hs hn hr] at q
-  have hseg := Spec.segment_ready cfg a rd evs am hget hal hb hc hd hs hn hr
-  rw [bufs_eq inv.sim rd] at hseg
-  generalize bufI32 (rdState cfg s rd).buf 0 = pid at q hseg
-  have hs0 : Sim cfg ((Spec.afterBuf cfg a rd).upd rd.uid (fun m => { m with pid := pid }))
-      ((rdState cfg s rd).upd rd.uid (fun m => { m with pid := pid })) :=
-    sim_upd (rdState_sim inv.sim rd) rd.uid _ _ (fun _ => rfl) (fun _ => rfl) (fun _ => rfl)
-      (fun am m _ _ h => ⟨h.connected, h.modId, h.unique, h.isLogger, h.isDaemon, h.name, rfl, h.subs, h.noAll⟩)
-      (fun _ => rfl) (fun _ => rfl) (fun _ => rfl) hu0 (fun _ => rfl)
-  have t0 : Top cfg ((rdState cfg s rd).upd rd.uid (fun m => { m with pid := pid })) :=
-    top_upd ok hfuel (rdState_top ok hfuel inv.top rd) rd.uid _ (fun _ => rfl) (fun _ => rfl) (fun _ => rfl)
-  have n := sendInfo_nest cfg ((rdState cfg s rd).upd rd.uid (fun m => { m with pid := pid })) rd.uid
-  have qa := qa_sendInfo cfg ((rdState cfg s rd).upd rd.uid (fun m => { m with pid := pid })) rd.uid
-  have hnil := acks_nil_of_quiet qa q evs he
-  have hW : Spec.CoreExt others ((Spec.afterBuf cfg a rd).upd rd.uid (fun m => { m with pid := pid }))
-      (Spec.checkInfos (Spec.checkDepartures cfg (Spec.checkAcks cfg
-        ((Spec.afterBuf cfg a rd).upd rd.uid (fun m => { m with pid := pid })) rd.uid false evs) none evs) evs) := by
-    rw [Spec.checkAcks_false_ok cfg _ rd.uid evs hnil]
-    exact (ext_others (Spec.checkDepartures_ext cfg _ _ evs)).trans (ext_others (Spec.checkInfos_ext _ evs))
-  exact segGoal_of hseg rfl (seg_close hs0 t0 n q evs he hW)
 
 end cases
 
